@@ -76,6 +76,8 @@ def generate_multi_indices(N,deg):
 
     """
 
+    # plain python integers (numpy.uint64 arithmetic promotes to float)
+    N, deg = int(N), int(deg)
     D = deg # renaming
 
     T = []
